@@ -572,6 +572,10 @@ impl ErasedNode for Node {
         if let Some(Kind::Expert(expert)) = self.kind() {
             expert.observability_change(false)
         }
+        if let Some(Kind::MapRef(mapref)) = self.kind() {
+            // we will not hear about our child's changes any more
+            mapref.did_change.set(true);
+        }
         debug_assert!(!self.needs_to_be_computed());
         if self.is_in_recompute_heap() {
             state.recompute_heap.remove(self.packed());
@@ -637,7 +641,9 @@ impl ErasedNode for Node {
             Kind::MapRef(mapref) => {
                 // don't run child_changed on our parents, because we already did that in OUR child_changed.
                 self.value_opt.replace(None);
-                self.maybe_change_value_manual(None, mapref.did_change.get(), false, state)
+                /* [did_change] is only meaningful between a [child_changed] call and the recompute
+                it causes; consuming it puts it back to "changed". */
+                self.maybe_change_value_manual(None, mapref.did_change.replace(true), false, state)
             }
             Kind::MapWithOld(map) => {
                 let input = map.input.value_as_any().unwrap();
@@ -1293,7 +1299,15 @@ impl ErasedNode for Node {
             Kind::MapRef(mapref) => {
                 // mapref is the only node that uses old_value_opt in child_changed.
                 //
-                let self_old = old_value_opt.map(|v| (mapref.mapper)(v));
+                /* If we are already queued we have never run, or we missed earlier changes of our
+                child while we were not linked to it. The child's previous value is then not the
+                one we (and the map_ref nodes above us) last projected, so there is nothing to
+                compare with: behave as if there were no old value. */
+                let missed_changes = self.is_in_recompute_heap();
+                let self_old = match missed_changes {
+                    true => None,
+                    false => old_value_opt.map(|v| (mapref.mapper)(v)),
+                };
                 let child_new = child.value_as_any().ok_or(ParentError::ChildHasNoValue)?;
                 let self_new = (mapref.mapper)(&*child_new);
 
